@@ -34,12 +34,12 @@ def show_cell(vals):
 
 def show_panel(p):
     p = list(p)
-    return "0" if not p else "|".join(";".join(show_cell(c) for c in inst) for inst in p)
+    return "_" if not p else "|".join(";".join(show_cell(c) for c in inst) for inst in p)
 
 
 def show_table(t):
     t = list(t)
-    return "0" if not t else "|".join(show_cell(r) for r in t)
+    return "_" if not t else "|".join(show_cell(r) for r in t)
 
 
 def oint(v):
@@ -51,11 +51,11 @@ def parse_cell(s):
 
 
 def parse_panel(s):
-    return [] if s == "0" else [[parse_cell(c) for c in inst.split(";")] for inst in s.split("|")]
+    return [] if s == "_" else [[parse_cell(c) for c in inst.split(";")] for inst in s.split("|")]
 
 
 def parse_table(s):
-    return [] if s == "0" else [parse_cell(r) for r in s.split("|")]
+    return [] if s == "_" else [parse_cell(r) for r in s.split("|")]
 
 
 def build(panel, kind, t0=0, names=None):
@@ -134,6 +134,10 @@ def same_panel(got, want):
 
 def same_table(got, want):
     return same_panel([got], [want])
+
+
+def same_list(got, want):
+    return same_panel([[got]], [[want]])
 
 
 def fr_panel(p):
@@ -397,6 +401,952 @@ def tab_gen(tier, rng):
 
 OPS["tab"] = dict(line=tab_line, real=tab_real, oracle=tab_oracle, gen=tab_gen)
 OPS["concat"] = dict(line=tab_line, real=tab_real, oracle=tab_oracle, gen=lambda tier, rng: [])
+
+
+# ----------------------------------------------------------------------------- PAA
+def iparam(v):
+    return str(v) if isinstance(v, int) and not isinstance(v, bool) else "notint"
+
+
+def paa_line(c):
+    k = c["k"]
+    if isinstance(k, int) and c["x"] and c["x"][0] and 1 <= k <= len(c["x"][0][0]) and any(len(s) < k for inst in c["x"] for s in inst):
+        # a later column shorter than num_intervals is not checked by the code and its result then depends on
+        # float rounding of `current_frame_size == frame_length`; outside the property's domain, not modelled
+        return None
+    return "C14 paa %s %s" % (iparam(c["k"]), show_panel(c["x"]))
+
+
+def paa_real(c):
+    from sktime.transformations.panel.dictionary_based._paa import PAA
+
+    def f():
+        X = build(c["x"], c["kind"], c.get("t0", 0))
+        return show_panel(nested_out(PAA(num_intervals=c["k"]).fit(X).transform(X)))
+    return guarded(f)
+
+
+def frame_means(xs, k):
+    """mean of the step function x over each of k equal frames of (possibly fractional) length n/k"""
+    n = len(xs)
+    fl = Fr(n, k)
+    out = []
+    for j in range(k):
+        a, b = j * fl, (j + 1) * fl
+        tot = Fr(0)
+        for i, v in enumerate(xs):
+            ov = min(b, Fr(i + 1)) - max(a, Fr(i))
+            if ov > 0:
+                tot += ov * v
+        out.append(tot / fl)
+    return out
+
+
+def paa_oracle(c, out):
+    """piecewise aggregate means over equal (possibly fractional) frames; exactly k values per series;
+    rows and columns kept in order"""
+    x = fr_panel(c["x"])
+    k = c["k"]
+    ncol = len(x[0])
+    if not isinstance(k, int) or isinstance(k, bool) or k < 1:
+        return []
+    if any(len({len(inst[j]) for inst in x}) != 1 for j in range(ncol)):
+        return []
+    if any(len(s) < k for inst in x for s in inst):
+        return []
+    if out.startswith("E:"):
+        return [("paa:valid-rejected", "1 <= k <= length rejected: " + out)]
+    got = parse_panel(out)
+    want = [[frame_means(s, k) for s in inst] for inst in x]
+    if [len(i) for i in got] != [len(i) for i in want]:
+        return [("paa:rows-or-columns", out)]
+    if any(len(s) != k for inst in got for s in inst):
+        return [("paa:length", "lengths %r, requested %d" % ([[len(s) for s in i] for i in got], k))]
+    if not same_panel(got, want):
+        return [("paa:values", "got %s want %s" % (out, show_panel(want)))]
+    return []
+
+
+def paa_gen(tier, rng):
+    cases = []
+    nmax = 16 if tier == "quick" else 40
+    for n in range(1, nmax + 1):            # exhaustive in (length, number of intervals)
+        for k in range(0, n + 2):
+            if tier == "quick" and n > 8 and rng.random() < 0.5:
+                continue
+            cases.append({"op": "paa", "kind": "S", "k": k, "x": [[rand_cell(rng, n, small=True)]], "t0": 0})
+    for _ in range(60 if tier == "quick" else 800):
+        ni, nc = rng.randrange(1, 4), rng.randrange(1, 4)
+        lens = [rng.randrange(1, 33) for _ in range(nc)]
+        if rng.random() < 0.5:
+            lens = [lens[0]] * nc
+        shape = [list(lens) for _ in range(ni)]
+        if rng.random() < 0.08 and ni > 1:
+            shape[1][0] += 1
+        x = rand_panel(rng, shape)
+        kind = rng.choice(["S", "S", "A", "N"])
+        if kind == "N" and not is_rect(x):
+            kind = "S"
+        k = rng.choice([rng.randrange(1, lens[0] + 1), rng.randrange(1, lens[0] + 1), lens[0], 1, lens[0] + 1, 0, -1, 2.0])
+        cases.append({"op": "paa", "kind": kind, "k": k, "x": x, "t0": rng.choice([0, 0, 3])})
+    return cases
+
+
+OPS["paa"] = dict(line=paa_line, real=paa_real, oracle=paa_oracle, gen=paa_gen)
+
+
+# ----------------------------------------------------------------------------- IntervalSegmenter
+def iseg_line(c):
+    iv = c["intervals"]
+    if isinstance(iv, int) and not isinstance(iv, bool):
+        t = "count:%d" % iv
+    elif isinstance(iv, list) and c.get("as_array", True):
+        t = "rows:" + "/".join(",".join(str(v) for v in r) for r in iv)
+    else:
+        t = "other"
+    return "C14 iseg %s %s %s" % (t, show_panel(c["xfit"]), show_panel(c["x"]))
+
+
+def iseg_real(c):
+    from sktime.transformations.panel.segment import IntervalSegmenter
+
+    def f():
+        iv = c["intervals"]
+        if isinstance(iv, list) and c.get("as_array", True):
+            iv = np.array(iv, dtype="int64")
+        t = IntervalSegmenter(intervals=iv).fit(build(c["xfit"], c["kind"], c.get("t0", 0)))
+        return show_panel(nested_out(t.transform(build(c["x"], c["kind"], c.get("t0", 0)))))
+    return guarded(f)
+
+
+def iseg_oracle(c, out):
+    """fixed-interval segmentation: an integer asks for that many consecutive intervals of (nearly) equal
+    length that together make up the series; explicit [start, end) rows ask for exactly those slices;
+    one row per instance, one column per interval"""
+    x, xfit = fr_panel(c["x"]), fr_panel(c["xfit"])
+    if len(x[0]) != 1 or len(xfit[0]) != 1 or not is_rect(c["x"]) or not is_rect(c["xfit"]):
+        return []
+    n, nfit = len(x[0][0]), len(xfit[0][0])
+    iv = c["intervals"]
+    if isinstance(iv, int) and not isinstance(iv, bool):
+        if n != nfit or not (1 <= iv <= n // 2):
+            return []
+        if out.startswith("E:"):
+            return [("iseg:count:valid-rejected", out)]
+        got = parse_panel(out)
+        if len(got) != len(x) or any(len(i) != iv for i in got):
+            return [("iseg:count:rows-or-columns", out)]
+        for gi, xi in zip(got, x):
+            row = xi[0]
+            sizes = [len(s) for s in gi]
+            if [v for s in gi for v in s] != row or max(sizes) - min(sizes) > 1:
+                # the known signature: every interval lost exactly its last point
+                q, r = divmod(n, iv)
+                blocks, pos = [], 0
+                for j in range(iv):
+                    sz = q + 1 if j < r else q
+                    blocks.append(row[pos:pos + sz]); pos += sz
+                if gi == [b[:-1] for b in blocks]:
+                    return [("iseg:count:last-point-of-each-interval-dropped",
+                             "n=%d k=%d: segments %s do not make up the series %s" % (n, iv, show_cell_list(gi), show_cell(row)))]
+                return [("iseg:count:values", "n=%d k=%d: segments %s vs series %s" % (n, iv, show_cell_list(gi), show_cell(row)))]
+        return []
+    if isinstance(iv, list) and c.get("as_array", True):
+        if not iv or any(len(r) != 2 or not (0 <= r[0] <= r[1] <= n) for r in iv):
+            return []
+        if out.startswith("E:"):
+            return [("iseg:rows:valid-rejected", out)]
+        got = parse_panel(out)
+        want = [[xi[0][a:b] for a, b in iv] for xi in x]
+        if [len(i) for i in got] != [len(i) for i in want]:
+            return [("iseg:rows:rows-or-columns", out)]
+        if not same_panel(got, want):
+            return [("iseg:rows:values", "got %s want %s" % (out, show_panel(want)))]
+    return []
+
+
+def show_cell_list(cells):
+    return ";".join(show_cell(s) for s in cells)
+
+
+def iseg_gen(tier, rng):
+    cases = []
+    nmax = 12 if tier == "quick" else 20
+    for n in range(1, nmax + 1):             # exhaustive in (length, number of intervals)
+        for k in range(-1, n // 2 + 2):
+            ni = rng.randrange(1, 4)
+            x = rand_panel(rng, [[n]] * ni)
+            cases.append({"op": "iseg", "kind": rng.choice(["S", "S", "A", "N"]), "intervals": k, "xfit": x, "x": x, "t0": 0})
+    for _ in range(80 if tier == "quick" else 1000):
+        n = rng.randrange(1, 17)
+        ni = rng.randrange(1, 4)
+        x = rand_panel(rng, [[n]] * ni)
+        xfit = x if rng.random() < 0.7 else rand_panel(rng, [[rng.choice([n, n, n + 1, max(1, n - 2)])]] * rng.randrange(1, 3))
+        r = rng.random()
+        if r < 0.55:       # explicit rows, mostly valid
+            rows = []
+            for _ in range(rng.randrange(1, 5)):
+                a = rng.randrange(0, n + 1); b = rng.randrange(a, n + 1)
+                if rng.random() < 0.15:
+                    a, b = rng.randrange(-n - 2, n + 3), rng.randrange(-n - 2, n + 3)
+                rows.append([a, b])
+            if rng.random() < 0.2:   # a tiling of [0, n)
+                cuts = sorted(set([0, n] + [rng.randrange(0, n + 1) for _ in range(rng.randrange(0, 4))]))
+                rows = [[a, b] for a, b in zip(cuts, cuts[1:])] or [[0, n]]
+            iv = rows
+        elif r < 0.9:
+            iv = rng.randrange(1, max(2, n // 2 + 1))
+        else:
+            iv = rng.choice([0, -2, n, 2.5, "three"])
+        c = {"op": "iseg", "kind": rng.choice(["S", "S", "A", "N"]), "intervals": iv, "xfit": xfit, "x": x, "t0": rng.choice([0, 0, 2])}
+        if isinstance(iv, list) and rng.random() < 0.05:
+            c["as_array"] = False        # a plain list is not accepted
+        cases.append(c)
+    # malformed panels: two columns, unequal lengths
+    for _ in range(6 if tier == "quick" else 40):
+        x = rand_panel(rng, [[4, 4], [4, 4]]) if rng.random() < 0.5 else rand_panel(rng, [[4], [5]])
+        cases.append({"op": "iseg", "kind": "S", "intervals": 2, "xfit": x, "x": x, "t0": 0})
+    return cases
+
+
+OPS["iseg"] = dict(line=iseg_line, real=iseg_real, oracle=iseg_oracle, gen=iseg_gen)
+
+
+# ----------------------------------------------------------------------------- SlidingWindowSegmenter
+def slide_line(c):
+    return "C14 slide %s %s" % (iparam(c["w"]), show_panel(c["x"]))
+
+
+def slide_real(c):
+    from sktime.transformations.panel.segment import SlidingWindowSegmenter
+
+    def f():
+        X = build(c["x"], c["kind"], c.get("t0", 0))
+        return show_panel(nested_out(SlidingWindowSegmenter(window_length=c["w"]).fit(X).transform(X)))
+    return guarded(f)
+
+
+def slide_oracle(c, out):
+    """sliding-window segmentation: the series is padded at both ends with floor(w/2) copies of its end
+    values and every window of length w (hop 1) is extracted: one window per time point"""
+    x = fr_panel(c["x"])
+    w = c["w"]
+    if not isinstance(w, int) or isinstance(w, bool) or w < 1 or len(x[0]) != 1 or not is_rect(c["x"]):
+        return []
+    if out.startswith("E:"):
+        return [("slide:valid-rejected", out)]
+    p = w // 2
+    want = []
+    for xi in x:
+        s = xi[0]
+        n = len(s)
+        want.append([[s[min(max(j + t - p, 0), n - 1)] for t in range(w)] for j in range(n)])
+    got = parse_panel(out)
+    if [len(i) for i in got] != [len(i) for i in want]:
+        return [("slide:rows-or-windows", "shape %r want %r" % ([len(i) for i in got], [len(i) for i in want]))]
+    if any(len(s) != w for inst in got for s in inst):
+        return [("slide:length", out)]
+    if not same_panel(got, want):
+        return [("slide:values", "got %s want %s" % (out, show_panel(want)))]
+    return []
+
+
+def slide_gen(tier, rng):
+    cases = []
+    nmax, wmax = (8, 10) if tier == "quick" else (12, 16)
+    for n in range(1, nmax + 1):
+        for w in range(-1, wmax + 1):
+            x = rand_panel(rng, [[n]] * rng.randrange(1, 3))
+            cases.append({"op": "slide", "kind": rng.choice(["S", "S", "A", "N"]), "w": w, "x": x, "t0": 0})
+    for _ in range(30 if tier == "quick" else 400):
+        n = rng.randrange(1, 25)
+        x = rand_panel(rng, [[n]] * rng.randrange(1, 5))
+        w = rng.choice([rng.randrange(1, 2 * n + 3), rng.randrange(1, 8), 3.0, 0])
+        cases.append({"op": "slide", "kind": rng.choice(["S", "S", "A", "N"]), "w": w, "x": x, "t0": rng.choice([0, 5])})
+    for _ in range(4 if tier == "quick" else 30):
+        x = rand_panel(rng, [[4, 4], [4, 4]]) if rng.random() < 0.5 else rand_panel(rng, [[4], [5]])
+        cases.append({"op": "slide", "kind": "S", "w": 3, "x": x, "t0": 0})
+    return cases
+
+
+OPS["slide"] = dict(line=slide_line, real=slide_real, oracle=slide_oracle, gen=slide_gen)
+
+
+# ----------------------------------------------------------------------------- TSInterpolator
+def interp_line(c):
+    return "C14 interp %s %s %s" % (c["kind"], iparam(c["length"]), show_panel(c["x"]))
+
+
+def interp_real(c):
+    from sktime.transformations.panel.interpolate import TSInterpolator
+
+    def f():
+        X = build(c["x"], c["kind"], c.get("t0", 0))
+        return show_panel(nested_out(TSInterpolator(c["length"]).fit(X).transform(X)))
+    return guarded(f)
+
+
+def lin_resample(s, L):
+    """the piecewise-linear function through (i/(n-1), s[i]) sampled at j/(L-1), j = 0..L-1"""
+    n = len(s)
+    out = []
+    for j in range(L):
+        pos = Fr(j * (n - 1), L - 1) if L > 1 else Fr(0)
+        k = min(int(math.floor(pos)), n - 2)
+        out.append(s[k] + (pos - k) * (s[k + 1] - s[k]))
+    return out
+
+
+def interp_oracle(c, out):
+    """linear interpolation to the requested length: every cell becomes exactly `length` equally spaced
+    samples of the piecewise-linear curve through its points; rows and columns unchanged"""
+    x = fr_panel(c["x"])
+    L = c["length"]
+    if not isinstance(L, int) or isinstance(L, bool) or L < 1:
+        return []
+    if any(len(s) < 2 for inst in x for s in inst):
+        return []
+    if out.startswith("E:"):
+        if c["kind"] == "A":
+            return [("interp:array-cells-rejected", "valid nested DataFrame with ndarray cells rejected: " + out)]
+        return [("interp:valid-rejected", out)]
+    got = parse_panel(out)
+    want = [[lin_resample(s, L) for s in inst] for inst in x]
+    if [len(i) for i in got] != [len(i) for i in want]:
+        return [("interp:rows-or-columns", out)]
+    if any(len(s) != L for inst in got for s in inst):
+        return [("interp:length", "lengths %r requested %d" % ([[len(s) for s in i] for i in got], L))]
+    if not same_panel(got, want):
+        return [("interp:values", "got %s want %s" % (out, show_panel(want)))]
+    return []
+
+
+def interp_gen(tier, rng):
+    cases = []
+    nmax, lmax = (9, 11) if tier == "quick" else (16, 20)
+    for n in range(1, nmax + 1):
+        for L in range(0, lmax + 1):
+            if tier == "quick" and rng.random() < 0.4 and n > 2 and L > 2:
+                continue
+            x = rand_panel(rng, [[n]])
+            cases.append({"op": "interp", "kind": "S", "length": L, "x": x, "t0": 0})
+    for _ in range(60 if tier == "quick" else 800):
+        ni, nc = rng.randrange(1, 4), rng.randrange(1, 4)
+        equal = rng.random() < 0.4
+        n0 = rng.randrange(2, 20)
+        shape = [[n0 if equal else rng.randrange(2, 20) for _ in range(nc)] for _ in range(ni)]
+        if rng.random() < 0.05:
+            shape[0][0] = 1
+        x = rand_panel(rng, shape)
+        kind = rng.choice(["S", "S", "S", "A", "N"])
+        if kind == "N" and not is_rect(x):
+            kind = "S"
+        L = rng.choice([rng.randrange(1, 40), rng.randrange(1, 12), n0, 2 * n0 - 1, 1, 2, 0, -3, 4.0])
+        cases.append({"op": "interp", "kind": kind, "length": L, "x": x, "t0": rng.choice([0, 0, 7])})
+    return cases
+
+
+OPS["interp"] = dict(line=interp_line, real=interp_real, oracle=interp_oracle, gen=interp_gen)
+
+
+# ----------------------------------------------------------------------------- Imputer
+NAN = float("nan")
+METHODS = ["ffill", "pad", "bfill", "backfill", "constant", "mean", "median", "linear", "nearest", "drift"]
+
+
+def show_oseries(z):
+    return "-" if not len(z) else ",".join("nan" if (v is None or v != v) else show_rat(float(v)) for v in z)
+
+
+def onone(v):
+    return "none" if v is None else show_rat(float(v))
+
+
+def impute_line(c):
+    m = c["method"] if c["method"] in METHODS else "unknown"
+    return "C14 impute %s %s %s %s" % (m, onone(c["value"]), onone(c["mv"]), show_oseries(c["z"]))
+
+
+def _series(z, i0=0):
+    return pd.Series([NAN if v is None else float(v) for v in z], index=pd.RangeIndex(i0, i0 + len(z)), dtype="float64")
+
+
+def impute_real(c):
+    from sktime.transformations.series.impute import Imputer
+
+    def f():
+        z = _series(c["z"], c.get("i0", 0))
+        zt = Imputer(method=c["method"], value=c["value"], missing_values=c["mv"]).fit_transform(z)
+        pre = "" if list(zt.index) == list(z.index) else "INDEX-CHANGED:"
+        return pre + show_oseries(zt.tolist())
+    return guarded(f)
+
+
+def _ols_line(ys):
+    n = len(ys)
+    xs = [Fr(i) for i in range(n)]
+    mx, my = sum(xs) / n, sum(ys) / n
+    den = sum((x - mx) ** 2 for x in xs)
+    b = sum((x - mx) * (y - my) for x, y in zip(xs, ys)) / den if den else Fr(0)
+    return [my + b * (x - mx) for x in xs]
+
+
+def _ffill(z):
+    out, last = [], None
+    for v in z:
+        last = v if v is not None else last
+        out.append(last)
+    return out
+
+
+def impute_oracle(c, out):
+    """for single series the chosen imputation rule: observed values stay, every missing value (NaN and
+    every occurrence of `missing_values`) is replaced by what the rule says where the rule says something"""
+    m, value, mv = c["method"], c["value"], c["mv"]
+    if m not in METHODS or (value is not None) != (m == "constant") or not c["z"]:
+        return []
+    z = [None if (v is None or (mv is not None and v == mv)) else Fr(v) for v in c["z"]]
+    n = len(z)
+    valid = [(i, v) for i, v in enumerate(z) if v is not None]
+    if not valid:
+        return []
+    if out.startswith("E:"):
+        return [("impute:valid-rejected", "%s: %s" % (m, out))]
+    if out.startswith("INDEX-CHANGED:"):
+        return [("impute:index-changed", out)]
+    got = parse_cell(out) if out != "-" else []
+    if len(got) != n:
+        return [("impute:length", "%d values for %d" % (len(got), n))]
+    fails = []
+    raw = [None if v is None else Fr(v) for v in c["z"]]
+    if mv == 0 and any(r == 0 for r in raw) and all(g == 0 for g, r in zip(got, raw) if r == 0):
+        return [("impute:missing-values-zero-ignored", "missing_values=0: the zeros were not imputed: %s" % out)]
+    for i, v in enumerate(z):
+        if v is not None and (got[i] is None or not close(float(got[i]), v)):
+            return [("impute:observed-value-changed", "position %d: %s -> %s" % (i, v, got[i]))]
+    want = [None] * n       # None = the rule says nothing here
+    if m in ("ffill", "pad"):
+        want = _ffill(z)
+    elif m in ("bfill", "backfill"):
+        want = _ffill(z[::-1])[::-1]
+    elif m == "constant":
+        want = [Fr(value)] * n
+    elif m == "mean":
+        want = [sum(v for _, v in valid) / len(valid)] * n
+    elif m == "median":
+        sv = sorted(v for _, v in valid)
+        k = len(sv)
+        want = [sv[k // 2] if k % 2 else (sv[k // 2 - 1] + sv[k // 2]) / 2] * n
+    elif m in ("linear", "nearest"):
+        for i in range(n):
+            prev = [(j, v) for j, v in valid if j < i]
+            nxt = [(j, v) for j, v in valid if j > i]
+            if z[i] is None and prev and nxt:
+                (j, a), (k, b) = prev[-1], nxt[0]
+                if m == "linear":
+                    want[i] = a + (b - a) * Fr(i - j, k - j)
+                else:
+                    want[i] = a if i - j < k - i else b if i - j > k - i else (a, b)   # tie: either
+    elif m == "drift":
+        filled = _ffill(z)
+        filled = _ffill(filled[::-1])[::-1]
+        want = _ols_line(filled)
+    for i in range(n):
+        if z[i] is None and want[i] is not None:
+            alts = want[i] if isinstance(want[i], tuple) else (want[i],)
+            if got[i] is None or not any(close(float(got[i]), a) for a in alts):
+                if m == "drift":
+                    hf = _ffill(z); hf = _ffill(hf[::-1])[::-1]
+                    if all(g is not None and close(float(g), h) for g, h in zip(got, hf)):
+                        return [("impute:drift:no-trend-values", "missing values got ffill/bfill values, not the fitted trend: %s (trend %s)" % (out, show_oseries([float(w) for w in want])))]
+                fails.append(("impute:%s:values" % ("ffill" if m == "pad" else "bfill" if m == "backfill" else m),
+                              "position %d: got %s want %s in %s" % (i, got[i], alts, out)))
+                break
+    return fails
+
+
+def impute_gen(tier, rng):
+    cases = []
+    scope = []
+    for n in range(1, 7):                 # exhaustive: every missing-value mask up to length 6 x every method
+        for mask in range(2 ** n):
+            for m in METHODS:
+                scope.append((n, mask, m))
+    for n, mask, m in slice_quick(scope, tier, rng, 420):
+        z = [None if (mask >> i) & 1 else float(rng.randrange(-5, 9)) for i in range(n)]
+        cases.append({"op": "impute", "method": m, "value": float(rng.randrange(-3, 4)) + 0.5 if m == "constant" else None,
+                      "mv": None, "z": z, "i0": rng.choice([0, 0, 10])})
+    for _ in range(150 if tier == "quick" else 2000):
+        n = rng.randrange(1, 31)
+        pm = rng.choice([0.1, 0.3, 0.6, 0.9])
+        z = [None if rng.random() < pm else (float(rng.randrange(-4, 5)) if rng.random() < 0.5 else dyadic(rng, -16, 16, 2)) for _ in range(n)]
+        m = rng.choice(METHODS)
+        mv = None
+        if rng.random() < 0.25:
+            mv = rng.choice([0, 0.0, -999.0, 3.0, 1.5])
+            for i in range(n):
+                if rng.random() < 0.2:
+                    z[i] = float(mv)
+        value = dyadic(rng, -8, 8, 2) if m == "constant" else None
+        if rng.random() < 0.04:          # malformed configurations
+            m, value = rng.choice([("mean", 1.0), ("constant", None), ("spline9", None), ("ffill", 0.0)])
+        cases.append({"op": "impute", "method": m, "value": value, "mv": mv, "z": z, "i0": rng.choice([0, 0, 5, -3])})
+    cases.append({"op": "impute", "method": "mean", "value": None, "mv": None, "z": [], "i0": 0})
+    return cases
+
+
+OPS["impute"] = dict(line=impute_line, real=impute_real, oracle=impute_oracle, gen=impute_gen)
+
+
+# ----------------------------------------------------------------------------- RandomIntervalFeatureExtractor
+def _range_feature(x):            # a callable without an `axis` keyword: exercises np.apply_along_axis
+    return max(x) - min(x) if len(x) else NAN
+
+
+def _features(names):
+    from sktime.utils.slope_and_trend import _slope
+    tbl = {"mean": np.mean, "var": np.std, "min": np.min, "max": np.max, "sum": np.sum, "slope": _slope,
+           "range": _range_feature}
+    return [tbl[n] for n in names]
+
+
+def rife_ivs(c):
+    return c["ivs"] if c["mode"] == "given" else c.get("ivs_fitted")
+
+
+def rife_line(c):
+    ivs = rife_ivs(c)
+    if ivs is None:
+        return None
+    return "C14 rife %s %s %s" % (",".join(c["feats"]), "/".join("%d:%d" % (a, b) for a, b in ivs) or "-", show_panel(c["x"]))
+
+
+def rife_real(c):
+    from sktime.transformations.panel.summarize import RandomIntervalFeatureExtractor
+
+    def f():
+        X = build(c["x"], c["kind"], c.get("t0", 0))
+        t = RandomIntervalFeatureExtractor(n_intervals=c["n_intervals"], min_length=c.get("min_length"),
+                                           max_length=c.get("max_length"), features=_features(c["feats"]),
+                                           random_state=c["seed"])
+        try:
+            t.fit(X)
+        except Exception as e:
+            c["ivs_fitted"] = None
+            raise
+        if c["mode"] == "given":
+            t.intervals_ = np.array(c["ivs"], dtype="int64").reshape(-1, 2)
+        else:
+            c["ivs_fitted"] = [[int(a), int(b)] for a, b in np.asarray(t.intervals_)]
+        Xt = np.asarray(t.transform(X), dtype="float64")
+        nI = len(rife_ivs(c))
+        rows = []
+        for r in Xt:
+            vals = []
+            for k, v in enumerate(r):
+                if c["feats"][k // nI] == "var" and v == v:
+                    v = v * v                      # np.std: compare the radicand
+                vals.append(v)
+            rows.append(vals)
+        return "_" if not rows else "|".join(show_oseries(r) if len(r) else "e" for r in rows)
+    return guarded(f)
+
+
+def _feat_exact(name, xs):
+    n = len(xs)
+    if name == "sum":
+        return sum(xs, Fr(0))
+    if n == 0:
+        return None
+    if name == "mean":
+        return sum(xs) / n
+    if name == "var":
+        m = sum(xs) / n
+        return sum((v - m) ** 2 for v in xs) / n
+    if name == "min":
+        return min(xs)
+    if name == "max":
+        return max(xs)
+    if name == "range":
+        return max(xs) - min(xs)
+    if name == "slope":      # least-squares slope of x against time 1..n
+        ts = [Fr(i + 1) for i in range(n)]
+        mt, mx = sum(ts) / n, sum(xs) / n
+        den = sum((t - mt) ** 2 for t in ts)
+        return None if den == 0 else sum((t - mt) * (v - mx) for t, v in zip(ts, xs)) / den
+
+
+def rife_oracle(c, out):
+    """summary features of the fitted random intervals: the fitted intervals lie inside the series and respect
+    the requested number / minimum length; the output has, per instance (rows in order), every feature of
+    every interval's slice"""
+    x = fr_panel(c["x"])
+    if len(x[0]) != 1 or not is_rect(c["x"]):
+        return []
+    n = len(x[0][0])
+    ivs = rife_ivs(c)
+    fails = []
+    if c["mode"] == "fit":
+        ni = c["n_intervals"]
+        minl = c.get("min_length") or 2
+        maxl = c.get("max_length")
+        ok_cfg = ((isinstance(ni, int) and 1 <= ni <= n) or ni in ("sqrt", "log")) and (maxl is None or maxl > minl)
+        if not ok_cfg or n < minl:
+            return []
+        if ivs is None:
+            return [("rife:fit:valid-rejected", out)]
+        # (with max_length set, the code can draw an end point beyond the series; the slice is then shorter.
+        #  The property speaks about the features of the fitted intervals, not about how they are drawn.)
+        if any(not (0 <= a < n and a < b) for a, b in ivs):
+            fails.append(("rife:fit:interval-not-in-series", "intervals %r n=%d" % (ivs, n)))
+        if isinstance(ni, int) and len(ivs) != ni:
+            fails.append(("rife:fit:number-of-intervals", "%d intervals for n_intervals=%d" % (len(ivs), ni)))
+    else:
+        if any(not (0 <= a < b <= n) for a, b in ivs):
+            return []
+    if out.startswith("E:"):
+        return fails + [("rife:valid-rejected", out)]
+    want = [[_feat_exact(f, xi[0][a:b]) for f in c["feats"] for a, b in ivs] for xi in x]
+    got = [parse_cell(r) for r in out.split("|")] if out != "_" else []
+    if len(got) != len(want) or any(len(g) != len(w) for g, w in zip(got, want)):
+        return fails + [("rife:rows-or-columns", out)]
+    if not same_table(got, want):
+        fails.append(("rife:values-order", "got %s want %s" % (out, "|".join(show_oseries([None if v is None else float(v) for v in r]) for r in want))))
+    return fails
+
+
+def rife_gen(tier, rng):
+    cases = []
+    FE = ["mean", "var", "min", "max", "sum", "slope", "range"]
+    # exhaustive: every single interval [a,b) of series of length <= 6, all features at once
+    scope = [(n, a, b) for n in range(2, 7) for a in range(0, n) for b in range(a + 1, n + 1)]
+    for n, a, b in slice_quick(scope, tier, rng, 40):
+        x = rand_panel(rng, [[n]] * rng.randrange(1, 3))
+        cases.append({"op": "rife", "kind": "S", "mode": "given", "ivs": [[a, b]], "feats": FE, "n_intervals": 1,
+                      "seed": 0, "x": x, "t0": 0})
+    for _ in range(80 if tier == "quick" else 900):
+        n = rng.randrange(2, 25)
+        x = rand_panel(rng, [[n]] * rng.randrange(1, 5))
+        feats = rng.sample(FE, rng.randrange(1, 4))
+        kind = rng.choice(["S", "S", "A", "N"])
+        if rng.random() < 0.5:
+            ivs = []
+            for _ in range(rng.randrange(1, 5)):
+                a = rng.randrange(0, n); b = rng.randrange(a + 1, n + 1)
+                ivs.append([a, b])
+            cases.append({"op": "rife", "kind": kind, "mode": "given", "ivs": ivs, "feats": feats, "n_intervals": 1,
+                          "seed": 0, "x": x, "t0": 0})
+        else:
+            ni = rng.choice(["sqrt", "log", rng.randrange(1, n + 1), rng.randrange(1, 5), n + 1, 0, 0.5])
+            c = {"op": "rife", "kind": kind, "mode": "fit", "feats": feats, "n_intervals": ni,
+                 "seed": rng.randrange(1000), "x": x, "t0": rng.choice([0, 0, 3])}
+            if rng.random() < 0.3:
+                c["min_length"] = rng.randrange(1, max(2, n // 2))
+                if rng.random() < 0.5:
+                    c["max_length"] = c["min_length"] + rng.randrange(0, 4)
+            cases.append(c)
+    for _ in range(3 if tier == "quick" else 20):
+        x = rand_panel(rng, [[4, 4], [4, 4]]) if rng.random() < 0.5 else rand_panel(rng, [[4], [5]])
+        cases.append({"op": "rife", "kind": "S", "mode": "given", "ivs": [[0, 2]], "feats": ["mean"], "n_intervals": 1,
+                      "seed": 0, "x": x, "t0": 0})
+    return cases
+
+
+OPS["rife"] = dict(line=rife_line, real=rife_real, oracle=rife_oracle, gen=rife_gen)
+
+
+# ----------------------------------------------------------------------------- row transformers
+_ROW_CLASSES = {}
+
+
+def _row_transformers():
+    """harness-defined series-to-series transformers with a closed form (wrapped by the real row transformer)"""
+    if _ROW_CLASSES:
+        return _ROW_CLASSES
+    from sktime.transformations.base import _SeriesToSeriesTransformer
+    from sktime.transformations.series.cos import CosineTransformer
+
+    class Cumsum(_SeriesToSeriesTransformer):
+        def transform(self, Z, X=None):
+            return np.cumsum(np.asarray(Z), axis=0)
+
+    class Rev(_SeriesToSeriesTransformer):
+        def transform(self, Z, X=None):
+            return np.asarray(Z)[::-1]
+
+    class Head2(_SeriesToSeriesTransformer):
+        def transform(self, Z, X=None):
+            return np.asarray(Z)[:2]
+
+    _ROW_CLASSES.update({"cumsum": Cumsum, "rev": Rev, "head2": Head2, "cos": CosineTransformer})
+    return _ROW_CLASSES
+
+
+def _fn_table(vals):
+    d = sorted({float(v) for v in vals})
+    return ",".join("%s:%s" % (show_rat(v), show_rat(math.cos(v))) for v in d) or "-"
+
+
+def row_line(c):
+    if c["op"] == "rowprim":
+        return "C14 rowprim mean %s" % show_panel(c["x"])
+    fn = c["fn"]
+    if fn == "cos":
+        fn = "tbl=" + _fn_table(v for inst in c["x"] for s in inst for v in s)
+    return "C14 rowser %s %s" % (fn, show_panel(c["x"]))
+
+
+def row_real(c):
+    from sktime.transformations.panel.compose import SeriesToPrimitivesRowTransformer, SeriesToSeriesRowTransformer
+    from sktime.transformations.series.summarize import MeanTransformer
+
+    def f():
+        X = build(c["x"], c["kind"], c.get("t0", 0))
+        if c["op"] == "rowprim":
+            r = SeriesToPrimitivesRowTransformer(MeanTransformer()).fit(X).transform(X)
+            return show_table(np.asarray(r, dtype="float64").tolist())
+        r = SeriesToSeriesRowTransformer(_row_transformers()[c["fn"]]()).fit(X).transform(X)
+        return show_panel(nested_out(r))
+    return guarded(f)
+
+
+def row_oracle(c, out):
+    """row-wise application of a wrapped transformer to every cell; one row per instance in input order"""
+    x = fr_panel(c["x"])
+    if not is_rect(c["x"]):
+        return []
+    if out.startswith("E:"):
+        return [(c["op"] + ":valid-rejected", out)]
+    if c["op"] == "rowprim":
+        want = [[sum(s) / len(s) for s in inst] for inst in x]
+        got = parse_table(out)
+        if len(got) != len(want) or not same_table(got, want):
+            return [("rowprim:values-order", "got %s want %s" % (out, show_table(want)))]
+        return []
+    fn = c["fn"]
+
+    def app(s):
+        if fn == "cumsum":
+            return list(itertools.accumulate(s))
+        if fn == "rev":
+            return s[::-1]
+        if fn == "head2":
+            return s[:2]
+        return [Fr(math.cos(float(v))) for v in s]
+    want = [[app(s) for s in inst] for inst in x]
+    got = parse_panel(out)
+    if [len(i) for i in got] != [len(i) for i in want]:
+        return [("rowser:rows-or-columns", out)]
+    if not same_panel(got, want):
+        return [("rowser:values-order", "got %s want %s" % (out, show_panel(want)))]
+    return []
+
+
+def row_gen(tier, rng):
+    cases = []
+    scope = [(ni, nc, n, fn) for ni in (1, 2, 3) for nc in (1, 2, 3) for n in (1, 2, 3, 4)
+             for fn in ("prim", "cumsum", "rev", "head2", "cos")]
+    for ni, nc, n, fn in slice_quick(scope, tier, rng, 90):
+        x = rand_panel(rng, [[n] * nc] * ni)
+        kind = rng.choice(["S", "S", "A", "N"])
+        cases.append({"op": "rowprim", "kind": kind, "x": x, "t0": 0} if fn == "prim" else
+                     {"op": "rowser", "kind": kind, "fn": fn, "x": x, "t0": 0})
+    for _ in range(40 if tier == "quick" else 500):
+        ni, nc, n = rng.randrange(1, 6), rng.randrange(1, 4), rng.randrange(1, 17)
+        shape = [[n] * nc for _ in range(ni)]
+        if rng.random() < 0.08 and ni > 1:
+            shape[1][0] += 1
+        x = rand_panel(rng, shape)
+        kind = rng.choice(["S", "S", "A", "N"])
+        if kind == "N" and not is_rect(x):
+            kind = "S"
+        fn = rng.choice(["prim", "prim", "cumsum", "rev", "head2", "cos"])
+        cases.append({"op": "rowprim", "kind": kind, "x": x, "t0": 0} if fn == "prim" else
+                     {"op": "rowser", "kind": kind, "fn": fn, "x": x, "t0": rng.choice([0, 4])})
+    return cases
+
+
+OPS["rowprim"] = dict(line=row_line, real=row_real, oracle=row_oracle, gen=row_gen)
+OPS["rowser"] = dict(line=row_line, real=row_real, oracle=row_oracle, gen=lambda tier, rng: [])
+
+
+# ----------------------------------------------------------------------------- ACF
+def acf_nlags(c):
+    n = len(c["z"])
+    if c["n_lags"] is not None:
+        return c["n_lags"]
+    return min(int(10 * math.log10(n)), n - 1) if n else 0     # statsmodels' default, resolved by the harness
+
+
+def acf_line(c):
+    return "C14 acf %s %d %s" % ("T" if c["adjusted"] else "F", acf_nlags(c), show_cell(c["z"]) if c["z"] else "-")
+
+
+def acf_real(c):
+    from sktime.transformations.series.acf import AutoCorrelationTransformer
+
+    def f():
+        z = _series(c["z"], c.get("i0", 0))
+        r = AutoCorrelationTransformer(adjusted=c["adjusted"], n_lags=c["n_lags"]).fit_transform(z)
+        return show_oseries(r.tolist())
+    return guarded(f)
+
+
+def acf_oracle(c, out):
+    """autocorrelation coefficients: r_k = sum_t (x_t - m)(x_{t+k} - m) / sum_t (x_t - m)^2 for k = 0..n_lags
+    (each lag's sum divided by n-k instead of n when adjusted)"""
+    z = [Fr(v) for v in c["z"]]
+    n = len(z)
+    if n < 2:
+        return []
+    m = sum(z) / n
+    d = [v - m for v in z]
+    s0 = sum(v * v for v in d)
+    nl = acf_nlags(c)
+    if s0 == 0 or nl < 0:
+        return []
+    if out.startswith("E:"):
+        return [("acf:valid-rejected", out)]
+    want = []
+    for k in range(0, min(nl, n - 1) + 1):
+        ck = sum(d[t] * d[t + k] for t in range(n - k))
+        want.append((ck / (n - k)) / (s0 / n) if c["adjusted"] else ck / s0)
+    got = parse_cell(out) if out != "-" else []
+    if len(got) != len(want):
+        return [("acf:number-of-lags", "%d coefficients, want %d" % (len(got), len(want)))]
+    if not same_list(got, want):
+        return [("acf:values", "got %s want %s" % (out, show_cell([float(w) for w in want])))]
+    return []
+
+
+def acf_gen(tier, rng):
+    cases = []
+    for n in range(1, 9 if tier == "quick" else 13):
+        for nl in [None] + list(range(-1, n + 2)):
+            for adj in (False, True):
+                if tier == "quick" and rng.random() < 0.5:
+                    continue
+                cases.append({"op": "acf", "z": rand_cell(rng, n, small=True), "adjusted": adj, "n_lags": nl, "i0": 0})
+    for _ in range(40 if tier == "quick" else 500):
+        n = rng.randrange(2, 41)
+        z = rand_cell(rng, n)
+        if rng.random() < 0.05:
+            z = [z[0]] * n
+        cases.append({"op": "acf", "z": z, "adjusted": rng.random() < 0.4,
+                      "n_lags": rng.choice([None, rng.randrange(0, n), rng.randrange(0, n), n + 3]), "i0": rng.choice([0, 5])})
+    cases.append({"op": "acf", "z": [], "adjusted": False, "n_lags": 2, "i0": 0})
+    return cases
+
+
+OPS["acf"] = dict(line=acf_line, real=acf_real, oracle=acf_oracle, gen=acf_gen)
+
+
+# ----------------------------------------------------------------------------- cosine, tabular-to-series adaptor
+def cos_line(c):
+    return "C14 cos %s %s" % (_fn_table(c["z"]), show_cell(c["z"]))
+
+
+def cos_real(c):
+    from sktime.transformations.series.cos import CosineTransformer
+
+    def f():
+        z = _series(c["z"], c.get("i0", 0))
+        zt = CosineTransformer().fit_transform(z)
+        pre = "" if list(zt.index) == list(z.index) else "INDEX-CHANGED:"
+        return pre + show_cell(zt.tolist())
+    return guarded(f)
+
+
+def cos_oracle(c, out):
+    """cosine of every value, element by element, same length, order and index"""
+    if out.startswith("E:") or out.startswith("INDEX"):
+        return [("cos:rejected-or-index", out)]
+    got = parse_cell(out)
+    want = [Fr(math.cos(v)) for v in c["z"]]
+    if len(got) != len(want) or not same_list(got, want):
+        return [("cos:values", "got %s" % out)]
+    return []
+
+
+def cos_gen(tier, rng):
+    cases = []
+    for n in range(1, 7):
+        cases.append({"op": "cos", "z": rand_cell(rng, n, small=True), "i0": 0})
+    for _ in range(20 if tier == "quick" else 300):
+        cases.append({"op": "cos", "z": rand_cell(rng, rng.randrange(1, 30)), "i0": rng.choice([0, 3, -2])})
+    return cases
+
+
+OPS["cos"] = dict(line=cos_line, real=cos_real, oracle=cos_oracle, gen=cos_gen)
+
+
+def _frame(cols, i0):
+    if len(cols) == 1:
+        return _series(cols[0], i0)
+    return pd.DataFrame({"c%d" % j: np.array(col, dtype="float64") for j, col in enumerate(cols)},
+                        index=pd.RangeIndex(i0, i0 + len(cols[0])))
+
+
+def _sk(t):
+    from sklearn.preprocessing import MinMaxScaler, MaxAbsScaler
+    return MinMaxScaler() if t == "minmax" else MaxAbsScaler()
+
+
+def adapt_line(c):
+    return "C14 adapt %s %s %s" % (c["t"], ";".join(show_cell(col) for col in c["zfit"]), ";".join(show_cell(col) for col in c["z"]))
+
+
+def adapt_real(c):
+    from sktime.transformations.series.adapt import TabularToSeriesAdaptor
+
+    def f():
+        zf, z = _frame(c["zfit"], c.get("i0", 0)), _frame(c["z"], c.get("i0", 0) + 2)
+        zt = TabularToSeriesAdaptor(_sk(c["t"])).fit(zf).transform(z)
+        pre = "" if list(zt.index) == list(z.index) else "INDEX-CHANGED:"
+        cols = [zt.tolist()] if isinstance(zt, pd.Series) else [zt.iloc[:, j].tolist() for j in range(zt.shape[1])]
+        return pre + ";".join(show_cell(col) for col in cols)
+    return guarded(f)
+
+
+def adapt_oracle(c, out):
+    """column-wise application of a wrapped tabular transformer: column j of the result is the wrapped
+    transformer, fitted on column j of the fit data, applied to column j; index unchanged"""
+    if len(c["zfit"]) != len(c["z"]):
+        return []
+    if out.startswith("E:") or out.startswith("INDEX"):
+        return [("adapt:rejected-or-index", out)]
+    want = []
+    for cf, col in zip(c["zfit"], c["z"]):
+        t = _sk(c["t"]).fit(np.array(cf, dtype="float64").reshape(-1, 1))
+        want.append([Fr(v) for v in t.transform(np.array(col, dtype="float64").reshape(-1, 1)).ravel().tolist()])
+    got = [parse_cell(s) for s in out.split(";")]
+    if len(got) != len(want) or not same_panel([got], [want]):
+        return [("adapt:values", "got %s" % out)]
+    return []
+
+
+def adapt_gen(tier, rng):
+    cases = []
+    for t in ("minmax", "maxabs"):
+        for nc in (1, 2, 3):
+            for n in (1, 2, 3, 5):
+                zfit = [rand_cell(rng, n, small=True) for _ in range(nc)]
+                if rng.random() < 0.2:
+                    zfit[0] = [zfit[0][0]] * n
+                cases.append({"op": "adapt", "t": t, "zfit": zfit, "z": [rand_cell(rng, rng.randrange(1, 6)) for _ in range(nc)] if False else
+                              [rand_cell(rng, n + 1) for _ in range(nc)], "i0": 0})
+    for _ in range(30 if tier == "quick" else 400):
+        nc = rng.randrange(1, 4)
+        n, k = rng.randrange(1, 20), rng.randrange(1, 20)
+        zfit = [rand_cell(rng, n) for _ in range(nc)]
+        if rng.random() < 0.1:
+            zfit[0] = [0.0] * n
+        z = [rand_cell(rng, k) for _ in range(nc if rng.random() < 0.95 else nc + 1)]
+        cases.append({"op": "adapt", "t": rng.choice(["minmax", "maxabs"]), "zfit": zfit, "z": z, "i0": rng.choice([0, 7])})
+    return cases
+
+
+OPS["adapt"] = dict(line=adapt_line, real=adapt_real, oracle=adapt_oracle, gen=adapt_gen)
 
 
 # ----------------------------------------------------------------------------- runner interface
